@@ -180,13 +180,19 @@ def run_history_real(info, dm, steps=None, rng=None, nsteps=0, bias=0.0, gen=Tru
     psy = L.make_psy(info, dm)
     sched = psy.invokes.invoke_list[invoke].schedule
     init = forest_in_sx(sched)
-    out = {"da_assumption": L.da_assumption(sched), "init": init, "steps": [], "results": [], "messages": [], "unsafe": None, "unsafe_after": None}
+    out = {"crashes": [], "da_assumption": L.da_assumption(sched), "init": init, "steps": [], "results": [], "messages": [], "unsafe": None, "unsafe_after": None}
     todo = list(steps) if steps is not None else None
     k = 0
     while (todo if todo is not None else k < nsteps):
         st = todo.pop(0) if todo is not None else random_step(rng, sched, bias)
         k += 1
         res, msg = L.apply_step(sched, st)
+        if msg and msg.startswith("CRASH"):
+            # PSyclone raised something other than TransformationError (e.g. GenerationError from the generic dependence
+            # analysis on a coloured inter-grid kernel, or while formatting a refusal message).  Nothing was accepted, the
+            # model has no notion of a crash: the step is dropped from the history and the history ends here.
+            out["crashes"].append([st, msg])
+            break
         out["steps"].append(st)
         out["results"].append(1 if res == "ok" else 0)
         out["messages"].append(msg)
@@ -201,6 +207,9 @@ def run_history_real(info, dm, steps=None, rng=None, nsteps=0, bias=0.0, gen=Tru
             if st is None:
                 break
             res, msg = L.apply_step(sched, st)
+            if msg and msg.startswith("CRASH"):
+                out["crashes"].append([st, msg])
+                break
             out["steps"].append(st)
             out["results"].append(1 if res == "ok" else 0)
             out["messages"].append(msg)
@@ -272,7 +281,7 @@ def judge(chk, case, real, mo, dist):
     dist["accepted_steps"] += sum(real["results"])
     dist["refused_steps"] += len(real["results"]) - sum(real["results"])
     dist["gen_ok" if gen_ok else "gen_fail"] += 1
-    dist["crash_instead_of_refusal"] += sum(1 for m in real["messages"] if m and m.startswith("CRASH"))
+    dist["crash_instead_of_refusal"] += len(real["crashes"])
     dist["da_assumption_broken"] += 1 if real["da_assumption"] else 0
     for st, r in zip(real["steps"], real["results"]):
         dist.setdefault(st[0] + (":ok" if r else ":refused"), 0)
@@ -347,7 +356,7 @@ def run(chk):
     thorough = chk.tier == "thorough"
     n_synth = 50 if thorough else 8
     n_bundled = 60 if thorough else 14
-    per_invoke = 500 if thorough else 70
+    per_invoke = 500 if thorough else 40
     dist = {"accepted_steps": 0, "refused_steps": 0, "gen_ok": 0, "gen_fail": 0, "crash_instead_of_refusal": 0,
             "da_assumption_broken": 0}
     found = None
